@@ -12,6 +12,7 @@
                           every accepted slot was FREE initially, no two accepted entries share a slot of an OMS *)
 From Verif Require Import Prelude Model.Spectrum.
 From Verif Require Import Proofs.SpectrumBase Proofs.Spectrum Proofs.Spectrum2 Proofs.Spectrum3 Proofs.Spectrum4 Proofs.Spectrum5 Proofs.Spectrum6.
+From Verif Require Import Model.Oms Gen.SpectrumGen Proofs.SpectrumGen.
 From Coq Require Import Permutation Lia.
 Open Scope Z_scope.
 
@@ -70,6 +71,30 @@ Theorem C14_never_raises : forall d p st rq,
   exists r, pth_assign_one p st rq = Ok r.
 Proof. exact pth_assign_one_total. Qed.
 Print Assumptions C14_never_raises.
+
+(* ---- second tie (translator): the primitives below are re-translated from /repo's source on every run
+        (harness/pygen.py -> Gen/SpectrumGen.v) and proved equal to the hand-written model ---- *)
+Theorem C14_source_mvalue_to_slots : forall n m, g_mvalue_to_slots n m = (n - m, n + m - 1).
+Proof. exact gen_mvalue_to_slots. Qed.
+Print Assumptions C14_source_mvalue_to_slots.
+Theorem C14_source_slots_to_m : forall a b, g_slots_to_m a b = Oms.slots_to_m a b.
+Proof. exact gen_slots_to_m. Qed.
+Print Assumptions C14_source_slots_to_m.
+Theorem C14_source_bitmap_sum : forall l1 l2, g_bitmap_sum l1 l2 = bitmap_sum l1 l2.
+Proof. exact gen_bitmap_sum. Qed.
+Print Assumptions C14_source_bitmap_sum.
+Theorem C14_source_select_candidate : forall c p,
+  g_select_candidate c p = Ok (match p with FirstFit => hd_error c | LastFit => hd_error (rev c) end).
+Proof. exact gen_select_candidate. Qed.
+Print Assumptions C14_source_select_candidate.
+Theorem C14_source_assign_spectrum : forall b n m, same_result (g_assign_spectrum b n m) (assign b n m).
+Proof. exact gen_assign_spectrum. Qed.
+Print Assumptions C14_source_assign_spectrum.
+Theorem C14_source_compute_slots : forall rq,
+  g_compute_spectrum_slot_vs_bandwidth (bandwidth rq) (spacing rq) (bit_rate rq) slot_width = (rq_nb_wl rq, rq_required rq) /\
+  snd (g_compute_spectrum_slot_vs_bandwidth (bit_rate rq) (spacing rq) (bit_rate rq) slot_width) = rq_pcm rq.
+Proof. exact gen_compute_slots. Qed.
+Print Assumptions C14_source_compute_slots.
 
 (* ---- non-vacuity: a concrete two-OMS network and a history with accepted, blocked and multi-slot requests *)
 Definition ex_b (c : list slot) : bitmap := mkB (-8) 8 (-6) 6 2 (zrange (-8) 9) c.
